@@ -520,4 +520,33 @@ theorem generated_comparisons :
     (∀ s o m q, cmpVals s (.view o m) (.num q) = if s = .eq then .ok none else .error .type) :=
   ⟨rfl, fun _ _ _ => rfl, fun _ _ _ => rfl, fun _ _ _ _ => rfl⟩
 
+
+/-- **energies of the source's own operator bodies** (no `mAdd`/`mSub` in between): run ANY generated form of `+`/`+=`
+    (every pair of classes BQM / QM / expression view, same or different vartypes, promoting or not, reflected or not),
+    of `-`/`-=`, of `± q`, `q −`, `* q`, `q *`, `*= q`, unary `-`, `/ q`, `/= q` on two operand objects `x`, `y`; if it returns,
+    the object it returns (for the mutating in-place forms: the left operand) has, at EVERY sample `s`, the energy
+    `x(s) + y(s)`, `x(s) − y(s)`, `x(s) + q`, `x(s) − q`, `q − x(s)`, `q·x(s)`, `−x(s)`, `x(s)/q` respectively.
+    (Products are the subject of `mul_linear_eval` / `generated_mul_steps`; that nothing else in the store changes is
+    `generated_operands_unchanged` / `generated_inplace_touches_left_only`.) -/
+theorem generated_energy (x y : Model) (q : Rat) (s : Label → Rat) :
+    (∀ pr ∈ Generated.addForms q, ∀ h', exec [x, y] pr.1 = .ok h' → (h'[pr.2]?).map (·.eval s) = some (x.eval s + y.eval s)) ∧
+    (∀ pr ∈ Generated.subForms q, ∀ h', exec [x, y] pr.1 = .ok h' → (h'[pr.2]?).map (·.eval s) = some (x.eval s - y.eval s)) ∧
+    (∀ pr ∈ Generated.addNumForms q, ∀ h', exec [x, y] pr.1 = .ok h' → (h'[pr.2]?).map (·.eval s) = some (x.eval s + q)) ∧
+    (∀ pr ∈ Generated.subNumForms q, ∀ h', exec [x, y] pr.1 = .ok h' → (h'[pr.2]?).map (·.eval s) = some (x.eval s - q)) ∧
+    (∀ pr ∈ Generated.rsubNumForms q, ∀ h', exec [x, y] pr.1 = .ok h' → (h'[pr.2]?).map (·.eval s) = some (q - x.eval s)) ∧
+    (∀ pr ∈ Generated.scaleForms q, ∀ h', exec [x, y] pr.1 = .ok h' → (h'[pr.2]?).map (·.eval s) = some (q * x.eval s)) ∧
+    (∀ pr ∈ Generated.negForms q, ∀ h', exec [x, y] pr.1 = .ok h' → (h'[pr.2]?).map (·.eval s) = some (- x.eval s)) ∧
+    (∀ pr ∈ Generated.divForms q, ∀ h', exec [x, y] pr.1 = .ok h' → (h'[pr.2]?).map (·.eval s) = some (x.eval s / q)) :=
+  ⟨forms_energy _ _ _ _ (addForms_E _ _ q) x y s rfl rfl, forms_energy _ _ _ _ (subForms_E _ _ q) x y s rfl rfl,
+   forms_energy _ _ _ _ (addNumForms_E _ _ q) x y s rfl rfl, forms_energy _ _ _ _ (subNumForms_E _ _ q) x y s rfl rfl,
+   forms_energy _ _ _ _ (rsubNumForms_E _ _ q) x y s rfl rfl, forms_energy _ _ _ _ (scaleForms_E _ _ q) x y s rfl rfl,
+   forms_energy _ _ _ _ (negForms_E _ _ q) x y s rfl rfl, forms_energy _ _ _ _ (divForms_E _ _ q) x y s rfl rfl⟩
+
+/-- non-vacuity: the generated `Spin + Binary` (promoting `+`) does return on two concrete operands, with the sum's energy -/
+example :
+    (match exec [⟨false, .spin, [⟨.str "s", bqmInfo .spin, 2⟩], [], 1⟩, ⟨false, .binary, [⟨.str "x", bqmInfo .binary, 3⟩], [], 0⟩]
+       (Generated.bqm_add_bqm_differ 0 1 0 2) with
+     | .ok h' => (h'[Generated.bqm_add_bqm_differResult 0 1 2]?).map (·.eval fun _ => 1) | .error _ => none) = some (6 : Rat) := by
+  decide +kernel
+
 end C06
